@@ -49,6 +49,10 @@ impl VSum<u32> for u32 {
     open spec fn sum_req(s: Seq<u32>) -> bool { isum(s.map_values(|x: u32| x as int)) <= u32::MAX }
     open spec fn spec_sum(s: Seq<u32>) -> u32 { isum(s.map_values(|x: u32| x as int)) as u32 }
 }
+impl VSum<u64> for u64 {
+    open spec fn sum_req(s: Seq<u64>) -> bool { isum(s.map_values(|x: u64| x as int)) <= u64::MAX }
+    open spec fn spec_sum(s: Seq<u64>) -> u64 { isum(s.map_values(|x: u64| x as int)) as u64 }
+}
 impl SeqIter<u32> {
     /// std::iter::Iterator::max for u32 items: None iff the iterator is empty, else the maximum
     #[verifier::external_body]
